@@ -129,6 +129,23 @@ class Ctx:
         self.sample = s
 
 
+def _plain(v, depth=0):
+    """Failure details travel from the workers to the parent by pickle and end in JSON files: anything that is not
+    plain data (an object of a class defined inside a check, a pedal object) is replaced by its repr."""
+    if v is None or isinstance(v, (bool, int, float, str)):
+        return v
+    if depth > 6:
+        return repr(v)[:200]
+    if isinstance(v, (list, tuple, set, frozenset)):
+        return [_plain(x, depth + 1) for x in (sorted(v, key=repr) if isinstance(v, (set, frozenset)) else v)]
+    if isinstance(v, dict):
+        return {str(k): _plain(x, depth + 1) for k, x in v.items()}
+    try:
+        return repr(v)[:300]
+    except Exception as e:      # noqa
+        return '<unprintable %s: %s>' % (type(v).__name__, type(e).__name__)
+
+
 class Result:
     """Mergeable summary of a set of executions."""
 
@@ -166,15 +183,15 @@ class Result:
         if ctx.cum_cost > self.max_cost:
             self.max_cost = ctx.cum_cost
         if ctx.sample is not None and len(self.samples) < 3:
-            self.samples.append(ctx.sample)
+            self.samples.append(_plain(ctx.sample))
         for sig, detail in ctx.fails:
             key = sigkey(sig)
             ent = self.failures.get(key)
             size = len(ctx.choices)
             if ent is None:
-                self.failures[key] = {'signature': sig, 'count': 1, 'phase': phase,
+                self.failures[key] = {'signature': _plain(sig), 'count': 1, 'phase': phase,
                                       'choices': list(ctx.choices), 'tags': [str(t) for t in ctx.tags],
-                                      'detail': detail, 'log': list(ctx.log)[-40:], 'size': size}
+                                      'detail': _plain(detail), 'log': _plain(list(ctx.log)[-40:]), 'size': size}
             else:
                 ent['count'] += 1
 
@@ -454,7 +471,13 @@ def run_phases(phases, tier='quick', workers=None, progress=None):
                         outstanding += 1
                     if not outstanding:
                         break
-                    r = rq.get()
+                    try:
+                        r = rq.get(timeout=max(900.0, 30 * ph.horizon_s))
+                    except _q.Empty:
+                        # (a result that cannot be transported kills the pool's result thread silently)
+                        total.harness_errors.append('no worker returned anything for %ds: giving up on phase %s'
+                                                    % (max(900.0, 30 * ph.horizon_s), ph.name))
+                        break
                     outstanding -= 1
                     if isinstance(r, BaseException):
                         total.harness_errors.append('pool error: %r' % (r,))
